@@ -11,6 +11,9 @@ fn main()
     
     generate_cargo_keys(flags).expect("Unable to generate the cargo keys!");
 
+    // Verification hooks are guarded by this cfg (off by default).
+    println!("cargo::rustc-check-cfg=cfg(hlorenzi_customasm_verif)");
+
     generate_std();
     generate_tests();
 }
